@@ -505,6 +505,11 @@ func GenEnv(r *Rng, mapLo, mapHi int) *Env {
 	add("m2", genMap(r, 0, mapLo, mapHi))
 	add("p", genStruct(r))
 	d := &LV{T: "drop"}
+	defer func() {
+		if r.Chance(0.15) && len(d.A) == 1 {
+			d.A = []*LV{{T: "drop", A: d.A}} // a Drop whose ToLiquid yields another Drop
+		}
+	}()
 	switch r.Intn(3) {
 	case 0:
 		d.A = []*LV{genMap(r, 0, mapLo, mapHi)}
